@@ -305,7 +305,11 @@ static inline bool in_lib () { return g_os && g_os->in_lib ; }
 static inline bool is_sim_path (const char *p) { return p && !strncmp (p, "/sim/", 5) ; }
 static inline bool is_sim_fd (int fd) { return fd >= 1000 || (fd == 0 && g_os && g_os->fd_zero) ; }
 
-static inline bool pt_on () { return g_os && g_os->passthrough && g_os->in_lib ; }
+static inline bool pt_on ()
+{	if (!(g_os && g_os->passthrough && g_os->in_lib)) return false ;
+	g_os->io_event (IO_READ, false) ;		// the step budget (bounded liveness) holds on the kernel route as well; no faults are configured there
+	return true ;
+}
 static std::string pt_path (const char *path)
 {	std::string p = norm_path (path) ;
 	if (p.compare (0, 5, "/sim/") == 0) return g_os->pt_root + p.substr (4) ;
